@@ -506,6 +506,15 @@ func pristineProbeUncached() string {
 	return res
 }
 
+func safeExecute(in *postscript.Interpreter, src []byte) (err error, panicked bool) {
+	defer func() {
+		if p := recover(); p != nil {
+			err, panicked = fmt.Errorf("panic: %v", p), true
+		}
+	}()
+	return in.Execute(bytes.NewReader(src)), false
+}
+
 func safeConc(op concOp) (res string) {
 	defer func() {
 		if p := recover(); p != nil {
@@ -743,7 +752,14 @@ func C18() *sim.Check {
 				in.MaxOps = budget
 				pieces := splitAt(p.Src, cuts)
 				for k, piece := range pieces {
-					err := in.Execute(bytes.NewReader(piece))
+					// a hostile program that makes the interpreter panic is an input
+					// problem (property C01, not claimed here); for this property it
+					// is one more way of failing half-way, and the probe still has
+					// to come out as if nothing had run
+					err, panicked := safeExecute(in, piece)
+					if panicked {
+						c.St.Inc("polluters_that_panicked(C01)")
+					}
 					if k < len(pieces)-1 {
 						if d := probeBattery(); d != probe0 {
 							return isoOutcome(c, append(hist, "hostile program (first part)"), d, probe0, p.Src)
